@@ -15,7 +15,8 @@ Ground truth (`spec`), all integers:
                                           answer = "ok" | "silent" | ["rc", code] | ["flaky", k, how]
                                           (how = "drop" | "busy" | "sum": the first k transmissions of each
                                           command are lost / refused with a retryable return code)
-  sver        {buffer_size, encoding ("legacy" | "semver"), name, version[3], labels, build_date, pcpu}
+  sver        {buffer_size, encoding ("legacy" | "semver"), name, version[3], labels, build_date, pcpu, nuls}
+              nuls = number of NUL bytes after the last string of the payload (0, 1 or several)
   probes      [{chip [x, y], p, vcpu_base, iobuf_size, vcpu {field: value}, iobuf [block, ...], router[16]}]
               block = {addr, time, ms, length, payload [bytes]}; the chain is the list order.
 
@@ -143,12 +144,13 @@ class SimMachine(object):
     def sver_reply(self, chip, p):
         s = self.spec["sver"]
         arg1 = (((chip[0] << 8) | chip[1]) << 16) | ((s.get("pcpu", 0) & 0xff) << 8) | (p & 0xff)
+        nuls = b"\0" * s.get("nuls", 1)       # terminator / padding after the last string: none, one, several
         if s["encoding"] == "legacy":
             ver = s["version"][0] * 100 + s["version"][1]
-            data = bytes(bytearray(s["name"])) + b"\0"
+            data = bytes(bytearray(s["name"])) + nuls
         else:
             ver = 0xffff
-            data = bytes(bytearray(s["name"])) + b"\0" + bytes(bytearray(s["vtext"])) + b"\0"
+            data = bytes(bytearray(s["name"])) + b"\0" + bytes(bytearray(s["vtext"])) + nuls
         if "raw_data" in s:
             data = bytes(bytearray(s["raw_data"]))
         return arg1, (ver << 16) | (s["buffer_size"] & 0xffff), s["build_date"], data
